@@ -35,22 +35,29 @@ class CaseTimeout(Exception):
     pass
 
 
-def _alarm(signum, frame):
-    raise CaseTimeout()
-
-
 class case_timeout:
-    """soft per-case timeout inside a worker (interrupts Python-level loops; native hangs are handled by the supervisor)"""
+    """soft per-case timeout inside a worker (interrupts Python-level loops; native hangs are handled by the supervisor).
+    AEON's native code notices the pending exception and reports it as KeyboardInterrupt('Operation cancelled'); that is
+    converted back into CaseTimeout here."""
 
     def __init__(self, sec):
         self.sec = sec
+        self.fired = False
+
+    def _alarm(self, signum, frame):
+        self.fired = True
+        raise CaseTimeout()
 
     def __enter__(self):
-        signal.signal(signal.SIGALRM, _alarm)
+        self.fired = False
+        signal.signal(signal.SIGALRM, self._alarm)
         signal.setitimer(signal.ITIMER_REAL, self.sec)
+        return self
 
-    def __exit__(self, *a):
+    def __exit__(self, exc_type, exc, tb):
         signal.setitimer(signal.ITIMER_REAL, 0)
+        if exc_type is KeyboardInterrupt and self.fired:
+            raise CaseTimeout() from exc
         return False
 
 
